@@ -388,10 +388,14 @@ func OP_NEW_MAP_Handler(v *VM) {
 	v.pc += w
 
 	m := val.Map(ty.(*types.Type).Map()).Map()
+	// insert in source order, so that a later entry with an equal key
+	// replaces the earlier one, as in the other back ends
+	kvs := make([]*val.Val, 2*sz)
+	for i := 2*sz - 1; i >= 0; i-- {
+		kvs[i] = v.Pop()
+	}
 	for i := 0; i < sz; i++ {
-		vl := v.Pop()
-		key := v.Pop()
-		m.V[key.Key()] = vl
+		m.V[kvs[2*i].Key()] = kvs[2*i+1]
 	}
 	v.Push(m.Vl())
 }
